@@ -92,19 +92,52 @@ class TupleDeserialize:
 class VariadicTupleDeserialize:
     kinds = {"self.method.deserialize(data)": "list"}
     raises = ["ValidationError"]
+    exports = ["C01: accepts exactly what the wrapped list node accepts", "C01: image is a tuple"]
 
     def requires(self, c):
         m = c.attr0(c.self, "method")
         x = z3.Const("x", Val)
         # Layer-2 fact: the wrapped method is a list node (its images are lists)
-        return [isinst(c.self, "VariadicTupleMethod"), T.forall([x], z3.Implies(T.acc(m, x), z3.And(isinst(T.img(m, x), "list"), T.alloc0[T.img(m, x)])), patterns=[T.img(m, x)])]
+        return [isinst(c.self, "VariadicTupleMethod"), T.forall([x], z3.Implies(T.acc(m, x), isinst(T.img(m, x), "list")), patterns=[T.img(m, x)])]
 
     def ensures(self, c):
         m, d = c.attr0(c.self, "method"), c.data
         out = {"C01: accepts exactly what the wrapped list node accepts": c.returned == T.acc(m, d)}
         if c.is_return:
             r = c.result
+            out["C01: image is a tuple"] = cls(r) == K("tuple")
             out["C01: image is a fresh tuple with the items of the list image"] = z3.And(cls(r) == K("tuple"), c.fresh(r), c.llen(r) == c.llen0(T.img(m, d)), c.arr("lget", r) == c.arr0("lget", T.img(m, d)))
+        if c.is_raise:
+            out["C02: the wrapped node's error, unchanged"] = c.exc == T.err(m, d)
+        return out
+
+
+@contract(f"{M}:FrozenSetMethod.deserialize", props=["C01", "C02", "C03"])
+class FrozenSetDeserialize:
+    kinds = {"self.method.deserialize(data)": "list"}
+    raises = ["ValidationError"]
+    exports = ["C01: accepts exactly what the wrapped list node accepts", "C01: image is a frozenset"]
+
+    def requires(self, c):
+        m = c.attr0(c.self, "method")
+        x = z3.Const("x", Val)
+        j = z3.Int("j")
+        # Layer-2 facts: the wrapped method is a list node, and a frozenset type has hashable elements
+        return [
+            isinst(c.self, "FrozenSetMethod"),
+            T.forall([x], z3.Implies(T.acc(m, x), isinst(T.img(m, x), "list")), patterns=[T.img(m, x)]),
+            T.forall([x, j], z3.Implies(z3.And(T.acc(m, x), j >= 0, j < c.llen0(T.img(m, x))), T.hashable(c.lget0(T.img(m, x), j))), patterns=[c.lget0(T.img(m, x), j)]),
+        ]
+
+    def ensures(self, c):
+        m, d = c.attr0(c.self, "method"), c.data
+        out = {"C01: accepts exactly what the wrapped list node accepts": c.returned == T.acc(m, d)}
+        if c.is_return:
+            r = c.result
+            j = z3.Int("j")
+            im = T.img(m, d)
+            out["C01: image is a frozenset"] = cls(r) == K("frozenset")
+            out["C01: image is a fresh frozenset holding the items of the list image"] = z3.And(c.fresh(r), T.forall([j], z3.Implies(z3.And(j >= 0, j < c.llen0(im)), c.dhas(r, c.lget0(im, j))), patterns=[c.lget0(im, j)]))
         if c.is_raise:
             out["C02: the wrapped node's error, unchanged"] = c.exc == T.err(m, d)
         return out
